@@ -438,6 +438,7 @@ def gen_tasks(tier, seed):
         ("kLeastAbsErrorsCycles", {"edges": [("s", "a", 1), ("a", "b", 3), ("b", "a", 2), ("b", "t", 1)], "kwargs": {"k": 1, "weight_type": "int"}}),
         ("kPathCoverCycles", {"edges": [("s", "a"), ("a", "b"), ("b", "a"), ("b", "t")], "kwargs": {"k": 1}}),
         ("MinSetCover", {"universe": [1, 2, 3], "subsets": [[1, 2], [2, 3], [3]]}),
+        ("NumPathsOptimization", {"edges": [("s", "a", 5), ("a", "t", 4), ("s", "b", 3), ("b", "t", 3), ("s", "c", 2), ("c", "t", 1)]}),
         # two-phase solve (few distinct flow values): an inconclusive second phase must leave the model unsolved and the getters raising
         ("MinErrorFlow", {"edges": [("s", "a", 5), ("a", "b", 3), ("a", "c", 4), ("b", "t", 3), ("c", "t", 1)], "kwargs": {"weight_type": "int", "few_flow_values_epsilon": 0.5}}),
     ]
@@ -591,6 +592,14 @@ def _inject_task(task, res):
         if cls == "MinGenSet":
             import flowpaths as fp
             return fp.MinGenSet(task["spec"]["numbers"], total=task["spec"]["total"], weight_type=int, **({"solver_options": dict(so)} if so else {}))
+        if cls == "NumPathsOptimization":
+            import flowpaths as fp
+            import networkx as nx
+            G_ = nx.DiGraph()
+            for (u, v, f) in task["spec"]["edges"]:
+                G_.add_edge(u, v, flow=f)
+            return fp.NumPathsOptimization(model_type=fp.kLeastAbsErrors, stop_on_delta_abs=1, min_num_paths=1, max_num_paths=4, G=G_, flow_attr="flow", weight_type=int,
+                                           **({"solver_options": dict(so)} if so else {}))
         if cls == "MinSetCover":
             import flowpaths as fp
             return fp.MinSetCover(task["spec"]["universe"], task["spec"]["subsets"], **({"solver_options": dict(so)} if so else {}))
